@@ -2,6 +2,7 @@ package sym
 
 import (
 	"fmt"
+	"os"
 	"strings"
 )
 
@@ -102,6 +103,16 @@ func (ex *Exec) Certificate() *Cert {
 		}
 	}
 	var pairs []hbPair
+	// An operation b can be pending as soon as its program-order predecessor has
+	// happened; two operations on one endpoint are ordered in every schedule only
+	// if a completes before b can even be initiated: a happens-before po(b).
+	// (Using b itself would bake the observed matching of b into the question.)
+	init := func(b *Event) int {
+		if b.po != nil {
+			return find(b.po.id)
+		}
+		return find(b.id)
+	}
 	// channel endpoints
 	type chanOps struct {
 		recvs, sends []*Event
@@ -127,27 +138,37 @@ func (ex *Exec) Certificate() *Cert {
 	}
 	for _, ch := range chOrder {
 		co := byCh[ch]
-		// receives are logged at initiation; order by completion is the same for FIFO queues
-		for i := 1; i < len(co.recvs); i++ {
-			a, b := co.recvs[i-1], co.recvs[i]
-			if a.g == b.g || (a.kind == "recvclosed" && b.kind == "recvclosed") {
-				continue
+		// every receive b against the latest earlier value-receive of each other
+		// goroutine (b could have taken that value if it can be pending early enough)
+		for j, b := range co.recvs {
+			seen := map[int]bool{}
+			for i := j - 1; i >= 0; i-- {
+				a := co.recvs[i]
+				if a.g == b.g || a.kind != "recv" || seen[a.g] {
+					continue
+				}
+				seen[a.g] = true
+				pairs = append(pairs, hbPair{find(a.id), init(b), fmt.Sprintf("receives on chan#%d by g%d and g%d", ch.id, a.g, b.g), false})
 			}
-			pairs = append(pairs, hbPair{find(a.id), find(b.id), fmt.Sprintf("receives on chan#%d by g%d and g%d", ch.id, a.g, b.g), false})
 		}
-		for i := 1; i < len(co.sends); i++ {
-			a, b := co.sends[i-1], co.sends[i]
-			if a.g == b.g {
-				continue
+		// every send/close b against the latest earlier send/close of each other goroutine
+		for j, b := range co.sends {
+			seen := map[int]bool{}
+			for i := j - 1; i >= 0; i-- {
+				a := co.sends[i]
+				if a.g == b.g || seen[a.g] {
+					continue
+				}
+				seen[a.g] = true
+				pairs = append(pairs, hbPair{find(a.id), init(b), fmt.Sprintf("%s/%s on chan#%d by g%d and g%d", a.kind, b.kind, ch.id, a.g, b.g), false})
 			}
-			pairs = append(pairs, hbPair{find(a.id), find(b.id), fmt.Sprintf("%s/%s on chan#%d by g%d and g%d", a.kind, b.kind, ch.id, a.g, b.g), false})
 		}
 	}
 	// locks: acquisition order of one mutex by different goroutines
 	lastLock := map[*Value]*Event{}
 	for _, e := range ex.lockOrder {
 		if p := lastLock[e.cell]; p != nil && p.g != e.g {
-			pairs = append(pairs, hbPair{find(p.id), find(e.id), fmt.Sprintf("lock acquisitions by g%d and g%d", p.g, e.g), false})
+			pairs = append(pairs, hbPair{find(p.id), init(e), fmt.Sprintf("lock acquisitions by g%d and g%d", p.g, e.g), false})
 		}
 		lastLock[e.cell] = e
 	}
@@ -195,6 +216,17 @@ func (ex *Exec) Certificate() *Cert {
 		}
 	}
 	c.Pairs = len(pairs)
+	if os.Getenv("VERIF_DEBUG_HB") != "" {
+		for _, e := range ex.events {
+			fmt.Fprintf(os.Stderr, "ev %d g%d %s node=%d\n", e.id, e.g, e.kind, find(e.id))
+		}
+		for _, e := range ex.edges {
+			fmt.Fprintf(os.Stderr, "edge %d -> %d\n", find(e[0]), find(e[1]))
+		}
+		for _, p := range pairs {
+			fmt.Fprintf(os.Stderr, "pair a=%d b=%d %s\n", p.a, p.b, p.what)
+		}
+	}
 	if len(pairs) == 0 {
 		c.Issued = c.Voided == ""
 		c.Result = "no conflicting pairs"
@@ -226,6 +258,9 @@ func (ex *Exec) Certificate() *Cert {
 			open = append(open, p)
 			continue
 		}
+		if p.a == p.b {
+			continue // same instant: ordered
+		}
 		decl(p.a)
 		decl(p.b)
 		disj = append(disj, fmt.Sprintf("(< e%d e%d)", p.b, p.a))
@@ -250,7 +285,7 @@ func (ex *Exec) Certificate() *Cert {
 		case Sat:
 			// locate the unordered pairs one by one
 			for _, p := range pairs {
-				if p.a < 0 {
+				if p.a < 0 || p.a == p.b {
 					continue
 				}
 				q := append(append([]string(nil), lines...), fmt.Sprintf("(assert (< e%d e%d))", p.b, p.a))
